@@ -13,7 +13,7 @@ package http2utils
 //@ ensures rest: forall(i, 3, len(b), b[i] == old(b)[i])
 
 //@ func BytesToUint24
-//@ props C05 C16
+//@ props C05 C16 C17
 //@ requires room: len(b) >= 3
 //@ pure
 //@ ensures value: r0 == b[0]*65536 + b[1]*256 + b[2]
@@ -26,7 +26,7 @@ package http2utils
 //@ ensures rest: forall(i, 4, len(b), b[i] == old(b)[i])
 
 //@ func BytesToUint32
-//@ props C05 C16
+//@ props C05 C16 C17
 //@ requires room: len(b) >= 4
 //@ pure
 //@ ensures value: r0 == b[0]*16777216 + b[1]*65536 + b[2]*256 + b[3]
@@ -42,7 +42,7 @@ package http2utils
 //@ ensures fresh: len(dst) + 4 > cap(dst) ==> fresh(r0)
 
 //@ func Resize
-//@ props C05 C16
+//@ props C05 C16 C17
 //@ requires nonneg: neededLen >= 0
 //@ modifies capacity(b)
 //@ ensures len: len(r0) == neededLen
@@ -58,7 +58,7 @@ package http2utils
 //@ ensures zero: forall(i, len(b) + 1, len(r0), r0[i] == 0)
 
 //@ func CutPadding
-//@ props C01 C05 C16
+//@ props C01 C05 C16 C17
 //@ ensures ok: r1 == nil ==> length >= 1 && length <= len(payload) && payload[0] < length &&
 //@ |   samearray(r0, payload) && offset(r0) == offset(payload) + 1 && len(r0) == length - payload[0] - 1
 //@ ensures iff: r1 == nil <==> (len(payload) >= 1 && length >= 1 && length <= len(payload) && payload[0] < length)
